@@ -403,6 +403,11 @@ class WebSocketApp:
                 else:
                     self._callback(self.on_open)
 
+                if not self.keep_running or not self.sock:
+                    # close() was called from the open callback
+                    teardown()
+                    return
+
                 dispatcher.read(self.sock.sock, read, check)
             except (
                 WebSocketConnectionClosedException,
